@@ -331,10 +331,14 @@ def build_ocaml(pid, driver, extract_vo):
 # findings, violations, evidence
 
 def load_findings():
+    """known_findings.json (committed) + per-property files known_findings.d/<ID>.json (same format)."""
+    out = []
     p = os.path.join(VERIF, "known_findings.json")
-    if not os.path.exists(p):
-        return []
-    return json.load(open(p)).get("findings", [])
+    if os.path.exists(p):
+        out += json.load(open(p)).get("findings", [])
+    for q in sorted(glob.glob(os.path.join(VERIF, "known_findings.d", "*.json"))):
+        out += json.load(open(q)).get("findings", [])
+    return out
 
 
 def match_finding(pid, features):
